@@ -39,6 +39,12 @@
 (*                                                                         *)
 (* Ideal layer: ExpectedOut = what a correct export delivers under the     *)
 (* fault, written as a function of the store shape only.                   *)
+(*                                                                         *)
+(* Store.Range iterates a Go map, so the real visiting order is arbitrary. *)
+(* The model visits 1..NM in order and is symmetric in the metric index:   *)
+(* every store shape is enumerated, hence a real run that visits its       *)
+(* metrics in order s is the behaviour of the shape permuted by s          *)
+(* (checks/c12.py looks that scenario up).                                 *)
 (***************************************************************************)
 EXTENDS Integers, Sequences, FiniteSets, Json, TLC
 
